@@ -8,6 +8,24 @@ ALL = ['C%02d' % i for i in range(1, 21)]
 
 # id -> (technique, level text, level note, design ref)
 CHECKS = {
+    'C19': (
+        'exhaustive single-fault injection on Hypothesis-generated documents with an independent path evaluator',
+        'Every applicable typed fault (bad value / attribute, missing / extra attribute, extra / missing / misplaced child, duplicate '
+        'key / ID, dangling keyref / IDREF) is applied at every node of valid docgen documents (default parser and lxml, prefixed and '
+        'default-namespace serialisations): the document must be invalid, an error must sit at the damaged node or its parent, none '
+        'outside its ancestor chain and subtree, and every error path - evaluated by an independent evaluator with XPath namespace '
+        'rules - must select exactly error.elem; the path clause is also run on generically damaged corpus documents.',
+        'trusted: docgen fault knowledge (invalidity by construction); select() evaluator in vf/checks/c19.py',
+        'DESIGN.md section 3 C19'),
+    'C20': (
+        'differential: schema.find vs hook-observed governing declaration; partial vs full runs (metamorphic part-of-whole relation)',
+        'For every element of valid docgen and corpus documents and four path spellings: schema.find(path) must be the declaration the '
+        'validation_hook saw governing the element (schemas reuse one local name with different types in different parents); '
+        'decode(path=p) must equal the sub-tree(s) of the full decoding; on damaged documents iter_errors(path=p) and '
+        'iter_errors(max_depth=k) must equal the full-run errors located in the selected part / above the cut; decoded data under '
+        'max_depth=k keeps exactly the nodes above the cut.',
+        'trusted: the full run as reference; identity-constraint errors excluded from partial comparisons; max_depth=0 not asserted',
+        'DESIGN.md section 3 C20'),
     'C17': (
         'Hypothesis-generated namespace nestings against an independent namespace resolver; round trip; mapper law',
         'Documents whose elements redeclare, shadow and multiply bind a pool of prefixes and the default namespace at random '
